@@ -60,6 +60,19 @@ prop("C18",
  "Trusted: cobra/pflag bind flags to the variables and enforce MaximumNArgs(1); os.Stdin.Stat models piped input. Not decided: unknown flags, invalid regexp values.",
  "abstract interpretation over a finite presence domain, exhaustive enumeration of the 8192 abstract initial states, effect log ordering", "DESIGN.md section 3, C18")
 
+prop("C12",
+ "Completeness, consistency and confinement of namespace pseudonymisation, decided on SSA + reconstructed tables: must-pass-through of the attr.ns rewrite on every successful return after attr is resolved; pairing of each command-document dispatch with the namespace rewriter on the same map under the flag only; verb list and store shape of the rewriter; Namespace typing of stage arguments and HashName stores in both Namespace arms; a single hashing site; every HashName call guarded (directly or through all callers) by the flag, a field-name parameter or the namespace-prefix test. Level 'other': whole-line absence of names is not decided.",
+ "Trusted: go/ssa, orderedmap. Not decided: names in places the tool does not know (error messages), object forms of $out/$merge.into.",
+ "CFG must-pass-through, guard atoms at call sites with inheritance through callers, table reconstruction", "DESIGN.md section 3, C12")
+prop("C14",
+ "Value-independence and path integrity of selective mode, decided on SSA: the guard of the selective pass-through contains only flags, options and the path matcher on a key path without input values; every call site carrying a matcher-reaching key path passes the caller's own path, append(path,key) or a guarded empty-path fallback; the matcher ranges over the whole path. Level 'other': which names a regexp matches is value-level.",
+ "Trusted: regexp. One listed exception (sub-pipeline restart) in rules/exceptions.json.",
+ "backward guard analysis of the pass-through return, inter-procedural parameter role propagation, call-site argument shape classification", "DESIGN.md section 3, C14")
+prop("C15",
+ "Wiring of field-name redaction, decided on SSA: the per-line mode is true only via HasPrefix(attr.ns, p) over the whole configured list and reaches every command-walker call and the plan-summary guard; every walker-to-walker call threads the caller's own flag parameter (about 30 sites); map walkers rename non-operator keys with HashName(current key) under the flag; '$field' references are renamed; sort is dispatched; renames are confined to the mode; the plan-summary rewrite is reached on every path, uses HashName and never rewrites its own output. Level 'other': whole-line absence of names is not decided.",
+ "Trusted: go/ssa, regexp.ReplaceAllStringFunc semantics.",
+ "parameter-role propagation over the call graph, phi-edge guard analysis, loop-carried haystack detection", "DESIGN.md section 3, C15")
+
 ALL = ["C%02d" % i for i in range(1, 21)]
 checks = []
 for pid in ALL:
